@@ -7,6 +7,7 @@ std's own Vec/Box allocation) is monitored on the implementation by coredrive's 
 import HipVerif.Audit.Reexport
 import HipVerif.Lemmas.CoreExtraB
 import HipVerif.Lemmas.CoreRun
+import HipVerif.Lemmas.CoreBalanceB
 
 namespace HipVerif.Props.C03
 open HipVerif.Core
@@ -59,5 +60,39 @@ theorem buffers_distinct_and_bounded (cfg : Cfg) (srcs : List (List UInt8)) (n :
     (∀ i x, getI s i = some x → x.live = true → x.data.length ≤ x.cap) :=
   let w := wf_run cfg ops _ (wf_init cfg srcs n)
   ⟨w.bufDistinct, w.datacap⟩
+
+/-! ### The buffer ledger over whole histories (Lemmas/CoreBalanceB.lean)
+
+`Ledger` replays the allocation events of a history: `allocBuf`/`importBuf`/the new side of
+`growBuf` make a buffer enter, `freeBuf`/`exportBuf`/the old side of `growBuf` make it leave.
+`EvGood` is the check each event must pass against the ledger so far; it is strict except for two
+named degenerate cases (a capacity-0 `Vec` owns no allocation: the model still emits `exportBuf b`
+for it, and a zero-length `write b 0 0` on it — `b` then never entered). -/
+
+/-- The ledger invariant holds initially … -/
+reexport HipVerif.Core.ledger_init as ledger_init
+/-- … is preserved by every operation … -/
+reexport HipVerif.Core.ledger_step as ledger_step
+/-- … hence by every history. -/
+reexport HipVerif.Core.ledger_run as ledger_run
+
+/-- **Buffers balance over every history**: every event is accepted by the ledger; a buffer enters
+at most once and leaves at most once; it leaves only after it entered (or is the capacity-0
+degenerate export); what is in the ledger at the end is exactly the buffers of the live boxes, each
+owned by one box. -/
+reexport HipVerif.Core.buffers_balanced as buffers_balanced
+
+/-- **No buffer leak**: when every value is gone, every buffer that entered has left. -/
+reexport HipVerif.Core.no_buffer_leak as no_buffer_leak
+reexport HipVerif.Core.all_buffers_released as all_buffers_released
+
+/-- **Writes stay within the block's requested size**, for EVERY write event of every history —
+including the temporary Vecs of `to_vec` and the copy-out of `take_vec` — the bound being the
+capacity with which that very buffer entered. (Supersedes `writes_within_cap_partial`.) -/
+reexport HipVerif.Core.writes_within_cap as writes_within_cap
+
+/-- **No write after free**: once a buffer left (freed, exported, reallocated away) no later event
+of the history writes to it. -/
+reexport HipVerif.Core.no_write_after_leave as no_write_after_leave
 
 end HipVerif.Props.C03
